@@ -1,4 +1,632 @@
+/* unit qsbr - quiescent_state_based (C01 protect + reclaim side, C02, C15 guard algebra, C17).
+ * Only declarations, contract stubs, ghost state, invariants and harness functions; function bodies come from lowered.h */
+#include <stdint.h>
+#include <stddef.h>
+static void mon_load(void* a, uint64_t v, int o);
+static void mon_store(void* a, uint64_t v, int o);
+static void mon_cas(void* a, uint64_t e, uint64_t d, _Bool ok, int o);
+static void mon_fence(int o);
+#define XV_ON_LOAD(addr, val, order) mon_load((void*)(addr), (uint64_t)(val), (order))
+#define XV_ON_STORE(addr, val, order) mon_store((void*)(addr), (uint64_t)(val), (order))
+#define XV_ON_CAS(addr, e, d, ok, order) mon_cas((void*)(addr), (uint64_t)(e), (uint64_t)(d), (ok), (order))
+#define XV_ON_FENCE(order) mon_fence(order)
 #include "xv.h"
-#define XV_INV_EHCB 1
-#define XV_HAVOC_EHCB control_block local_epoch epoch
+int xv_threw; uint64_t xv_clock, xv_rmw_old; _Bool xv_cas_ok;
+
+#ifndef E
+#define E 3            /* thread entries */
+#endif
+#ifndef NP
+#define NP 6           /* node pool: up to NP retired nodes / orphans in total, any distribution over the lists */
+#endif
+#ifndef L
+#define L 3            /* abandoned chain length bound (unwinding of adopt_orphans) */
+#endif
+#ifndef NE
+#define NE 3           /* array shape; h_epochs checks that it equals the number_epochs extracted from the header */
+#endif
+#define number_epochs ((unsigned)XV_NUMBER_EPOCHS)    /* static constexpr unsigned number_epochs, extracted (used by the lowered text and the harnesses) */
+#define NEU ((unsigned)NE)
+#define TSAN_MEMORY_ORDER(tsan_order, normal_order) normal_order   /* port.hpp, non-TSan branch */
+
+/* ---------------- types ---------------- */
+typedef uintptr_t mptr;                      /* marked_ptr<T,N>: opaque word; word == 0 <=> (nullptr, mark 0) */
+struct node { struct node* next; unsigned target_epoch; struct node* o_lists[NE]; int deleter; };   /* deletable_object (+ orphan payload) */
+enum { ST_FREE = 0, ST_INACTIVE = 1, ST_ACTIVE = 2 };
+struct tcb { unsigned local_epoch; int state; struct tcb* next_entry; };   /* thread_control_block : thread_block_list::entry */
+struct thread_data { unsigned region_entries; struct tcb* control_block; struct node* retire_lists[NE]; };
+struct guard { mptr ptr; };
+struct tbl { int unused; };
+
+/* ---------------- shared state ---------------- */
+unsigned global_epoch;
+struct tbl global_thread_block_list;
+struct tcb entries[E]; unsigned n_entries; unsigned own;
+struct node pool[NP]; struct node orphan_obj;
+struct thread_data g_td;
+#define local_thread_data() g_td
+
+/* marked_ptr word model: 2 low bits = mark, rest = 1 + pool index (0 = nullptr) */
+static struct node* mp_get(mptr w) { size_t k = (size_t)(w >> 2); if (k == 0) return 0; XV_MODEL_ASSERT("mptr.in_pool", k <= NP); return &pool[k - 1]; }
+#define MP_get(w) mp_get(w)
+#define GDEREF(w) mp_get(w)
+#define MP_reset(x) ((x) = 0)
+#define MarkedPtr(g) ((g).ptr)                       /* detail::guard_ptr::operator MarkedPtr() */
+#define XV_INIT_base(self, v) ((self)->ptr = (v))    /* detail::guard_ptr(const MarkedPtr& p) : ptr(p) */
+#define XV_INIT_guard_ptr(self, v) qsbr_g_ctor((self), (v))   /* delegating constructor */
+#define XV_SWAP(a, b) do { mptr xv_t = (a); (a) = (b); (b) = xv_t; } while (0)
+#define G_do_swap(self, g) ((void)0)                 /* detail::guard_ptr::do_swap: empty dummy, not overridden by this scheme */
+#define N_set_deleter(n, d) ((n).deleter = (d))
+static mptr nondet_word(void) { mptr w = nondet_uptr(); XV_ASSUME((w >> 2) <= NP); return w; }
+
+/* ---------------- ghost counters / monitors ---------------- */
+unsigned n_enter, n_leave, n_ensure, n_quiescent, n_delete, n_adopt, n_acquire_entry, n_release, n_abandon, n_orphan_new, n_adopt_call;
+unsigned ens_entries_at_call; uint64_t adopt_clock, delete_clock, abandon_clock, release_clock;
+struct node** del_arg; struct tcb* released_cb; struct node* abandoned_obj; struct node* abandoned_head;
+unsigned orphan_target; struct tcb* acquired_cb;
+/* loads of the guarded source */
+mptr* mon_src; unsigned mon_src_loads; mptr mon_src_last; unsigned mon_src_last_entries, mon_src_last_nq; int mon_src_last_order;
+/* epoch cells */
+unsigned mon_g_loads, mon_g_stores, mon_g_cas; _Bool mon_g_cas_ok; unsigned mon_g_cas_exp, mon_g_cas_des; int mon_g_cas_order, mon_g_load_order; unsigned mon_g_last_load;
+uint64_t mon_g_cas_clock, mon_fence_clock, mon_last_entry_read_clock, mon_own_store_clock; int mon_fence_order; unsigned n_fence;
+_Bool seen_epoch_set[E], seen_active_set[E], seen_active[E]; unsigned seen_epoch[E];
+_Bool mon_cas_all_examined; unsigned mon_own_stores; int mon_own_store_order; unsigned mon_own_store_val, mon_own_store_global;
+unsigned mon_other_stores;
+
+static _Bool examined_ok(unsigned i, unsigned old) {
+  return seen_epoch_set[i] && (seen_epoch[i] != old || (seen_active_set[i] && !seen_active[i]));
+}
+static void mon_load(void* a, uint64_t v, int o) {
+  if (a == (void*)mon_src) { mon_src_loads++; mon_src_last = (mptr)v; mon_src_last_entries = g_td.region_entries; mon_src_last_nq = n_quiescent; mon_src_last_order = o; }
+  if (a == (void*)&global_epoch) { mon_g_loads++; mon_g_load_order = o; mon_g_last_load = (unsigned)v; }
+  for (unsigned i = 0; i < E; i++) if (a == (void*)&entries[i].local_epoch) { seen_epoch_set[i] = 1; seen_epoch[i] = (unsigned)v; seen_active_set[i] = 0; mon_last_entry_read_clock = xv_clock; }
+}
+static void mon_store(void* a, uint64_t v, int o) {
+  if (a == (void*)&global_epoch) mon_g_stores++;
+  for (unsigned i = 0; i < E; i++) if (a == (void*)&entries[i].local_epoch) {
+    if (&entries[i] == g_td.control_block) { mon_own_stores++; mon_own_store_order = o; mon_own_store_val = (unsigned)v; mon_own_store_global = global_epoch; mon_own_store_clock = xv_clock; }
+    else mon_other_stores++;
+  }
+}
+static void mon_cas(void* a, uint64_t e, uint64_t d, _Bool ok, int o) {
+  if (a == (void*)&global_epoch) {
+    mon_g_cas++; mon_g_cas_ok = ok; mon_g_cas_exp = (unsigned)e; mon_g_cas_des = (unsigned)d; mon_g_cas_order = o; mon_g_cas_clock = xv_clock;
+    unsigned old = ((unsigned)e + NEU - 1) % NEU;
+    mon_cas_all_examined = 1;
+    for (unsigned i = 0; i < E; i++) if (i < n_entries && !examined_ok(i, old)) mon_cas_all_examined = 0;
+  }
+}
+static void mon_fence(int o) { n_fence++; mon_fence_order = o; mon_fence_clock = xv_clock; }
+
+/* ---------------- contract stubs ---------------- */
+/* thread_block_list: iteration visits every entry (entries[0..n_entries)); acquire_entry hands out an exclusively owned active
+ * entry which is either a free one (re-used, arbitrary left-over local_epoch) or a new one; release_entry makes it free */
+typedef struct tcb* TBL_iter;
+#define TBL_begin(l) (n_entries ? &entries[0] : (struct tcb*)0)
+#define TBL_end(l) ((struct tcb*)0)
+#define TBL_next(it) ((it)->next_entry)
+typedef struct node** RL_iter;                       /* std::array<deletable_object*, NEU> */
+#define RL_begin(a) (&(a)[0])
+#define RL_end(a) (&(a)[0] + NE)
+#define RL_next(it) ((it) + 1)
+static _Bool e_is_active(struct tcb* e, int mo) {
+  XV_ENV();
+  for (unsigned i = 0; i < E; i++) if (e == &entries[i]) { seen_active_set[i] = 1; seen_active[i] = (e->state == ST_ACTIVE); mon_last_entry_read_clock = xv_clock; }
+  xv_clock++;
+  return e->state == ST_ACTIVE;
+}
+#define E_is_active(e, mo) e_is_active(&(e), (mo))
+unsigned in_reuse;
+static struct tcb* tbl_acquire_entry(void) {
+  n_acquire_entry++;
+  unsigned k = nondet_uint(); XV_ASSUME(k < E);
+  if (k < n_entries) { XV_ASSUME(entries[k].state == ST_FREE); in_reuse = 1; }            /* re-use of a record left by an exited thread */
+  else { XV_ASSUME(k == n_entries); n_entries++; entries[k].next_entry = 0; if (k) entries[k - 1].next_entry = &entries[k]; in_reuse = 0; }
+  entries[k].state = ST_ACTIVE; acquired_cb = &entries[k];
+  return &entries[k];
+}
+#define TBL_acquire_entry(l) tbl_acquire_entry()
+static void tbl_release_entry(struct tcb* cb) { n_release++; released_cb = cb; release_clock = xv_clock++; if (cb) cb->state = ST_FREE; }
+#define TBL_release_entry(l, cb) tbl_release_entry(cb)
+static void tbl_abandon(struct node* obj) { n_abandon++; abandoned_obj = obj; abandon_clock = xv_clock++; }
+#define TBL_abandon_retired_nodes(l, obj) tbl_abandon(obj)
+static struct node* tbl_adopt(void) { n_adopt_call++; struct node* r = abandoned_head; abandoned_head = 0; return r; }
+#define TBL_adopt_abandoned_retired_nodes(l) tbl_adopt()
+static struct node* orphan_new(unsigned target, struct node** lists) {
+  n_orphan_new++; orphan_target = target; orphan_obj.target_epoch = target; orphan_obj.next = 0;
+  for (unsigned i = 0; i < NE; i++) orphan_obj.o_lists[i] = lists[i];
+  return &orphan_obj;
+}
+#define ORPHAN_new(t, lists) orphan_new((t), (lists))
+static void stub_delete_objects(struct node** list) { n_delete++; del_arg = list; delete_clock = xv_clock++; *list = 0; }
+#define XV_DELETE_OBJECTS(l) stub_delete_objects(&(l))
+
+/* thread_data callees: real text or contract stub, selected per run */
+static void qsbr_ensure_has_control_block(struct thread_data* self);
+static void qsbr_quiescent_state(struct thread_data* self);
+static void qsbr_adopt_orphans(struct thread_data* self);
+static void stub_ensure(struct thread_data* self) {
+  n_ensure++; ens_entries_at_call = self->region_entries;
+  if (self->control_block == 0) { self->control_block = &entries[own]; entries[own].state = ST_ACTIVE; entries[own].local_epoch = global_epoch; }
+}
+static void stub_quiescent(struct thread_data* self) {
+  n_quiescent++;
+  XV_OBL("qsbr.leave.quiescent_only_at_zero", self->region_entries == 0);
+}
+struct node* adopt_new_head[NE]; _Bool adopt_changed[NE];
+static void stub_adopt(struct thread_data* self) {
+  n_adopt++; adopt_clock = xv_clock++;
+  /* contract of adopt_orphans (run 'adopt'): nodes are only added, in front of the lists */
+  for (unsigned i = 0; i < NE; i++) { adopt_changed[i] = nondet_bool(); if (adopt_changed[i]) self->retire_lists[i] = &orphan_obj; adopt_new_head[i] = self->retire_lists[i]; }
+}
+#ifdef REAL_EHCB
+#define TD_ensure_has_control_block(s) qsbr_ensure_has_control_block(s)
+#else
+#define TD_ensure_has_control_block(s) stub_ensure(s)
+#endif
+#ifdef REAL_QS
+#define TD_quiescent_state(s) qsbr_quiescent_state(s)
+#else
+#define TD_quiescent_state(s) stub_quiescent(s)
+#endif
+#ifdef REAL_ADOPT
+#define TD_adopt_orphans(s) qsbr_adopt_orphans(s)
+#else
+#define TD_adopt_orphans(s) stub_adopt(s)
+#endif
+#define TD_try_update_epoch(s, c, n) qsbr_try_update_epoch((s), (c), (n))
+static void qsbr_enter_region(struct thread_data* self);
+static void qsbr_leave_region(struct thread_data* self);
+static void qsbr_add_retired_node1(struct thread_data* self, struct node* p);
+unsigned n_retire; struct node* retired_node; unsigned retire_entries_at_call;
+#define TD_enter_region(td) (n_enter++, qsbr_enter_region(&(td)))
+#define TD_leave_region(td) (n_leave++, XV_OBL("qsbr.leave.balanced", (td).region_entries >= 1), qsbr_leave_region(&(td)))
+#define TD_add_retired_node(td, p) (n_retire++, retired_node = (p), retire_entries_at_call = (td).region_entries, qsbr_add_retired_node1(&(td), (p)))
+
+/* ---------------- environment (INT) ---------------- */
+#ifdef XV_INT
+int env_kind;   /* 1: guarded source cell changes arbitrarily; 2: epoch machinery, rely = see unit.py; 3: epoch machinery, rely = true */
+void xv_env(void) {
+  if (env_kind == 1) { *mon_src = nondet_word(); }
+  if (env_kind == 2 || env_kind == 3) {
+    for (unsigned i = 0; i < E; i++) if (&entries[i] != g_td.control_block) {       /* other threads' records: anything */
+      entries[i].local_epoch = nondet_uint(); int s = nondet_int(); XV_ASSUME(s >= ST_FREE && s <= ST_ACTIVE); entries[i].state = s; }
+    if (env_kind == 3) { global_epoch = nondet_uint(); XV_ASSUME(global_epoch < NEU); }
+    else if (g_td.control_block && global_epoch == g_td.control_block->local_epoch && nondet_bool()) global_epoch = (global_epoch + 1) % NEU;
+  }
+}
+#endif
+
+/* ---------------- loop cut: ensure_has_control_block's validate loop ---------------- */
+#define XV_INV_EHCB (self->control_block == acquired_cb && acquired_cb != 0 && n_acquire_entry == 1 && epoch < number_epochs && mon_g_stores == 0 && mon_other_stores == 0 \
+                     && self->region_entries == in_entries && global_epoch < number_epochs)
+#define XV_HAVOC_EHCB epoch = nondet_uint(); self->control_block->local_epoch = nondet_uint() /* local_epoch */; mon_own_stores = nondet_uint(); \
+                      mon_g_cas = nondet_uint(); mon_g_cas_ok = nondet_bool(); mon_g_cas_exp = nondet_uint(); mon_g_cas_des = nondet_uint(); \
+                      mon_own_store_clock = nondet_u64(); mon_g_cas_clock = nondet_u64(); xv_clock = nondet_u64(); global_epoch = nondet_uint()
+
+unsigned in_entries, in_local, in_global, in_op; mptr in_self, in_src; _Bool in_same, in_has_cb;
+unsigned in_e_epoch[E]; int in_e_state[E]; unsigned in_n, in_own;
 #include "lowered.h"
+
+/* ================= state construction ================= */
+int home[NP];   /* -1: not in any list; 0..NE-1: retire list; NE: abandoned chain */
+struct node* head0[NE + 1]; struct node* next0[NP];
+static void build_lists(void) {
+  struct node** tail[NE + 1];
+  for (unsigned h = 0; h <= NE; h++) { head0[h] = 0; tail[h] = &head0[h]; }
+  for (unsigned k = 0; k < NP; k++) {
+    home[k] = nondet_int(); XV_ASSUME(home[k] >= -1 && home[k] <= (int)NE);
+    pool[k].next = 0; pool[k].target_epoch = nondet_uint(); pool[k].deleter = nondet_int();
+    for (unsigned i = 0; i < NE; i++) pool[k].o_lists[i] = 0;
+    if (home[k] >= 0) { *tail[home[k]] = &pool[k]; tail[home[k]] = &pool[k].next; }
+  }
+  for (unsigned h = 0; h < NE; h++) g_td.retire_lists[h] = head0[h];
+  abandoned_head = head0[NE];
+  for (unsigned k = 0; k < NP; k++) next0[k] = pool[k].next;
+}
+/* occurrences of x in the list; -1 if the list does not end within NP+1 steps */
+static int member(struct node* head, struct node* x) {
+  int c = 0; struct node* p = head;
+  for (unsigned s = 0; s < NP + 1; s++) { if (!p) break; if (p == x) c++; p = p->next; }
+  return p ? -1 : c;
+}
+static void reset_ghost(void) {
+  n_enter = n_leave = n_ensure = n_quiescent = n_delete = n_adopt = n_acquire_entry = n_release = n_abandon = n_orphan_new = n_adopt_call = n_retire = 0;
+  mon_src_loads = 0; mon_g_loads = mon_g_stores = mon_g_cas = 0; mon_own_stores = mon_other_stores = 0; n_fence = 0; mon_cas_all_examined = 0; mon_g_cas_ok = 0;
+  for (unsigned i = 0; i < E; i++) { seen_epoch_set[i] = 0; seen_active_set[i] = 0; }
+  del_arg = 0; released_cb = 0; abandoned_obj = 0; acquired_cb = 0; retired_node = 0; xv_clock = 1;
+  mon_last_entry_read_clock = 0; mon_fence_clock = 0; mon_g_cas_clock = 0; mon_own_store_clock = 0; adopt_clock = 0; delete_clock = 0;
+}
+/* the registry: n entries chained in order, arbitrary states and local epochs (other threads' records are read, never assumed) */
+static void havoc_entries(void) {
+  in_n = nondet_uint(); XV_ASSUME(in_n <= E); n_entries = in_n;
+  for (unsigned i = 0; i < E; i++) {
+    in_e_epoch[i] = nondet_uint(); in_e_state[i] = nondet_int(); XV_ASSUME(in_e_state[i] >= ST_FREE && in_e_state[i] <= ST_ACTIVE);
+    entries[i].local_epoch = in_e_epoch[i]; entries[i].state = in_e_state[i];
+    entries[i].next_entry = (i + 1 < n_entries) ? &entries[i + 1] : 0;
+  }
+  in_global = nondet_uint(); XV_ASSUME(in_global < number_epochs); global_epoch = in_global;
+}
+/* this thread: registered (control block = entries[own], active, local epoch < NE) or not yet */
+static void havoc_thread(_Bool need_cb, unsigned min_entries) {
+  havoc_entries();
+  in_own = nondet_uint(); own = in_own; XV_ASSUME(own < E);
+  in_has_cb = nondet_bool(); if (need_cb) XV_ASSUME(in_has_cb);
+  in_local = nondet_uint(); XV_ASSUME(in_local < number_epochs);
+  if (in_has_cb) { XV_ASSUME(own < n_entries); entries[own].state = ST_ACTIVE; entries[own].local_epoch = in_local; in_e_state[own] = ST_ACTIVE; in_e_epoch[own] = in_local; g_td.control_block = &entries[own]; }
+  else { XV_ASSUME(own >= n_entries || entries[own].state == ST_FREE); g_td.control_block = 0; }
+  in_entries = nondet_uint(); XV_ASSUME(in_entries >= min_entries && in_entries < 0xFFFFFFF0u);   /* assumption: fewer than 2^32-16 nested regions/guards per thread */
+  XV_ASSUME(in_entries == 0 || in_has_cb);                 /* thread invariant: inside a region => registered */
+  g_td.region_entries = in_entries;
+  build_lists(); reset_ghost();
+}
+#define NZ(w) ((w) != 0 ? 1u : 0u)
+static void check_balance(unsigned before_nz, unsigned after_nz) {
+  XV_OBL("qsbr.guard.region_balance", g_td.region_entries == in_entries - before_nz + after_nz);
+  XV_OBL("qsbr.guard.region_balance", g_td.region_entries == 0 || g_td.control_block != 0);
+}
+static void check_lists_untouched(void) {
+  unsigned i = nondet_uint(); XV_ASSUME(i < NE); unsigned k = nondet_uint(); XV_ASSUME(k < NP);
+  XV_OBL("qsbr.conserve", g_td.retire_lists[i] == head0[i] && pool[k].next == next0[k] && n_delete == 0);
+}
+
+/* ================= protect side: region counting ================= */
+void h_enter(void) {
+  havoc_thread(0, 0);
+  qsbr_enter_region(&g_td);
+  XV_OBL("qsbr.enter.registers_then_counts", n_ensure == 1 && ens_entries_at_call == in_entries && g_td.region_entries == in_entries + 1 && g_td.control_block != 0);
+  XV_OBL("qsbr.enter.registers_then_counts", n_quiescent == 0);
+  check_lists_untouched();
+  if (in_has_cb) XV_CANARY("enter.registered"); else XV_CANARY("enter.fresh");
+}
+void h_leave(void) {
+  havoc_thread(1, 1);
+  qsbr_leave_region(&g_td);
+  XV_OBL("qsbr.leave.quiescent_only_at_zero", g_td.region_entries == in_entries - 1 && n_quiescent == (in_entries == 1 ? 1u : 0u));
+  XV_OBL("qsbr.leave.quiescent_only_at_zero", g_td.control_block == &entries[own]);
+  if (in_entries == 1) XV_CANARY("leave.outermost"); else XV_CANARY("leave.nested");
+}
+void h_region_guard(void) {
+  havoc_thread(0, 0);
+  qsbr_rg_ctor();
+  XV_OBL("qsbr.guard.region_balance", g_td.region_entries == in_entries + 1 && n_enter == 1 && n_leave == 0 && n_quiescent == 0);
+  qsbr_rg_dtor();
+  XV_OBL("qsbr.guard.region_balance", g_td.region_entries == in_entries && n_enter == 1 && n_leave == 1 && n_quiescent == (in_entries == 0 ? 1u : 0u));
+  XV_CANARY("region_guard.done");
+}
+
+/* ================= guard algebra (C15) with protections = region_entries ================= */
+struct guard ga, gb;
+static void havoc_guards(void) {
+  in_self = nondet_word(); in_src = nondet_word(); ga.ptr = in_self; gb.ptr = in_src;
+  havoc_thread(0, NZ(in_self) + NZ(in_src));
+}
+void h_g_ctor(void) {
+  mptr p = nondet_word(); in_src = p; havoc_thread(0, 0); ga.ptr = nondet_word();
+  qsbr_g_ctor(&ga, p);
+  XV_OBL("qsbr.guard.algebra", ga.ptr == p && n_enter == NZ(p) && n_leave == 0);
+  check_balance(0, NZ(p)); check_lists_untouched();
+  if (p) XV_CANARY("g_ctor.nonnull"); else XV_CANARY("g_ctor.null");
+}
+void h_g_copy_ctor(void) {
+  in_src = nondet_word(); gb.ptr = in_src; havoc_thread(0, NZ(in_src)); ga.ptr = nondet_word();
+  qsbr_g_copy_ctor(&ga, &gb);
+  XV_OBL("qsbr.guard.algebra", ga.ptr == in_src && gb.ptr == in_src && n_enter == NZ(in_src) && n_leave == 0);
+  check_balance(NZ(in_src), 2 * NZ(in_src)); check_lists_untouched();
+  if (in_src) XV_CANARY("g_copy_ctor.nonnull"); else XV_CANARY("g_copy_ctor.null");
+}
+void h_g_move_ctor(void) {
+  in_src = nondet_word(); gb.ptr = in_src; havoc_thread(0, NZ(in_src)); ga.ptr = nondet_word();
+  qsbr_g_move_ctor(&ga, &gb);
+  XV_OBL("qsbr.guard.algebra", ga.ptr == in_src && gb.ptr == 0 && n_enter == 0 && n_leave == 0);
+  check_balance(NZ(in_src), NZ(in_src)); check_lists_untouched();
+  if (in_src) XV_CANARY("g_move_ctor.nonnull");
+}
+void h_g_copy_assign(void) {
+  havoc_guards(); in_same = nondet_bool();
+  if (in_same) {
+    XV_ASSUME(in_entries >= NZ(in_self));
+    qsbr_g_copy_assign(&ga, &ga);
+    XV_OBL("qsbr.guard.algebra", ga.ptr == in_self && n_enter == 0 && n_leave == 0 && g_td.region_entries == in_entries);
+    XV_CANARY("g_copy_assign.self");
+  } else {
+    qsbr_g_copy_assign(&ga, &gb);
+    XV_OBL("qsbr.guard.algebra", ga.ptr == in_src && gb.ptr == in_src && n_enter == NZ(in_src) && n_leave == NZ(in_self));
+    check_balance(NZ(in_self) + NZ(in_src), 2 * NZ(in_src));
+    if (in_self && in_src) XV_CANARY("g_copy_assign.both"); if (!in_self && in_src) XV_CANARY("g_copy_assign.into_empty"); if (in_self && !in_src) XV_CANARY("g_copy_assign.from_empty");
+  }
+  check_lists_untouched();
+}
+void h_g_move_assign(void) {
+  havoc_guards(); in_same = nondet_bool();
+  if (in_same) {
+    qsbr_g_move_assign(&ga, &ga);
+    XV_OBL("qsbr.guard.algebra", ga.ptr == in_self && n_enter == 0 && n_leave == 0 && g_td.region_entries == in_entries);
+    XV_CANARY("g_move_assign.self");
+  } else {
+    qsbr_g_move_assign(&ga, &gb);
+    XV_OBL("qsbr.guard.algebra", ga.ptr == in_src && gb.ptr == 0 && n_enter == 0 && n_leave == NZ(in_self));
+    check_balance(NZ(in_self) + NZ(in_src), NZ(in_src));
+    if (in_self && in_src) XV_CANARY("g_move_assign.both");
+  }
+  check_lists_untouched();
+}
+void h_g_swap(void) {
+  havoc_guards();
+  qsbr_g_swap(&ga, &gb);
+  XV_OBL("qsbr.guard.algebra", ga.ptr == in_src && gb.ptr == in_self && n_enter == 0 && n_leave == 0 && g_td.region_entries == in_entries);
+  check_lists_untouched();
+  XV_CANARY("g_swap.done");
+}
+void h_g_reset(void) {
+  havoc_guards();
+  in_op = nondet_uint(); XV_ASSUME(in_op < 2);       /* 0: reset(), 1: destructor */
+  if (in_op == 0) qsbr_g_reset(&ga); else qsbr_g_dtor(&ga);
+  XV_OBL("qsbr.guard.algebra", ga.ptr == 0 && gb.ptr == in_src && n_enter == 0 && n_leave == NZ(in_self));
+  check_balance(NZ(in_self) + NZ(in_src), NZ(in_src));
+  XV_OBL("qsbr.leave.quiescent_only_at_zero", n_quiescent == ((in_self != 0 && in_entries == 1) ? 1u : 0u));
+  unsigned e1 = g_td.region_entries, l1 = n_leave;
+  qsbr_g_reset(&ga);                                 /* double reset is harmless */
+  XV_OBL("qsbr.guard.algebra", ga.ptr == 0 && g_td.region_entries == e1 && n_leave == l1);
+  check_lists_untouched();
+  if (in_self) { if (in_op) XV_CANARY("g_reset.dtor_nonnull"); else XV_CANARY("g_reset.nonnull"); } else XV_CANARY("g_reset.null");
+}
+void h_g_reclaim(void) {
+  havoc_guards();
+  int d = nondet_int();
+  struct node* obj = mp_get(in_self);
+  XV_ASSUME(obj != 0);                               /* requires: the guard holds an object */
+  unsigned k0 = (unsigned)(obj - pool); XV_ASSUME(home[k0] == -1);    /* requires: not retired before */
+  unsigned le = entries[own].local_epoch;
+  qsbr_g_reclaim(&ga, d);
+  XV_OBL("qsbr.reclaim.retires_once", n_retire == 1 && retired_node == obj && retire_entries_at_call == in_entries);
+  XV_OBL("qsbr.reclaim.retires_once", g_td.retire_lists[le] == obj && obj->next == head0[le] && obj->deleter == d);
+  unsigned i = nondet_uint(); XV_ASSUME(i < NE); unsigned k = nondet_uint(); XV_ASSUME(k < NP);
+  XV_OBL("qsbr.conserve", (i == le || g_td.retire_lists[i] == head0[i]) && (k == k0 || pool[k].next == next0[k]) && n_delete == 0);
+  XV_OBL("qsbr.guard.algebra", ga.ptr == 0 && gb.ptr == in_src && n_enter == 0 && n_leave == 1);
+  check_balance(1 + NZ(in_src), NZ(in_src));
+  if (in_entries == 1) XV_CANARY("g_reclaim.last"); else XV_CANARY("g_reclaim.nested");
+}
+
+/* acquire / acquire_if_equal: SEQ (exact) and INT (the source changes arbitrarily between any two accesses) */
+mptr src_cell;
+void h_g_acquire(void) {
+  in_self = nondet_word(); ga.ptr = in_self; havoc_thread(0, NZ(in_self));
+  src_cell = nondet_word(); in_src = src_cell; mon_src = &src_cell; int order = nondet_int();
+#ifdef XV_INT
+  env_kind = 1;
+#endif
+  qsbr_g_acquire(&ga, &src_cell, order);
+#ifdef XV_INT
+  env_kind = 0;
+#endif
+  XV_OBL("qsbr.acquire.snapshot", mon_src_loads >= 1 && ga.ptr == mon_src_last);
+#ifndef XV_INT
+  XV_OBL("qsbr.acquire.snapshot", ga.ptr == in_src && src_cell == in_src);
+#endif
+  if (ga.ptr) {
+    XV_OBL("qsbr.acquire.enter_before_load", mon_src_last_entries >= 1 && mon_src_last_nq == n_quiescent && g_td.region_entries >= 1);
+    XV_OBL("qsbr.acquire.snapshot", mon_src_last_order == order);
+  }
+  XV_OBL("qsbr.guard.region_balance", n_enter <= 1 && n_leave <= 1);
+  check_balance(NZ(in_self), NZ(ga.ptr)); check_lists_untouched();
+  if (ga.ptr && !in_self) XV_CANARY("g_acquire.fresh"); if (ga.ptr && in_self) XV_CANARY("g_acquire.replace");
+  if (!ga.ptr && in_self) XV_CANARY("g_acquire.null_drop");
+#ifdef XV_INT
+  if (!ga.ptr && mon_src_loads == 2) XV_CANARY("g_acquire.vanished");
+#endif
+}
+void h_g_acquire_if_equal(void) {
+  in_self = nondet_word(); ga.ptr = in_self; havoc_thread(0, NZ(in_self));
+  src_cell = nondet_word(); in_src = src_cell; mon_src = &src_cell; int order = nondet_int(); mptr expected = nondet_word();
+#ifdef XV_INT
+  env_kind = 1;
+#endif
+  _Bool r = qsbr_g_acquire_if_equal(&ga, &src_cell, expected, order);
+#ifdef XV_INT
+  env_kind = 0;
+#endif
+  XV_OBL("qsbr.acquire_if_equal.iff", mon_src_loads >= 1 && r == (mon_src_last == expected));
+  XV_OBL("qsbr.acquire_if_equal.iff", r ? ga.ptr == expected : ga.ptr == 0);
+#ifndef XV_INT
+  XV_OBL("qsbr.acquire_if_equal.iff", r == (in_src == expected) && src_cell == in_src);
+#endif
+  if (ga.ptr) {
+    XV_OBL("qsbr.acquire.enter_before_load", mon_src_last_entries >= 1 && mon_src_last_nq == n_quiescent && g_td.region_entries >= 1);
+    XV_OBL("qsbr.acquire.snapshot", mon_src_last_order == order && ga.ptr == mon_src_last);
+  }
+  XV_OBL("qsbr.guard.region_balance", n_enter <= 1 && n_leave <= 1);
+  check_balance(NZ(in_self), NZ(ga.ptr)); check_lists_untouched();
+  if (r && ga.ptr) XV_CANARY("g_aie.true"); if (r && !ga.ptr) XV_CANARY("g_aie.true_null"); if (!r && in_self) XV_CANARY("g_aie.false_drop");
+#ifdef XV_INT
+  if (!r && mon_src_loads == 2) XV_CANARY("g_aie.changed");
+#endif
+}
+
+/* ================= reclaim side ================= */
+static _Bool blocked_by(unsigned old) {
+  for (unsigned i = 0; i < E; i++) if (i < n_entries && entries[i].state == ST_ACTIVE && entries[i].local_epoch == old) return 1;
+  return 0;
+}
+static _Bool near(unsigned local, unsigned global) { return global == local || global == (local + 1) % number_epochs; }
+
+void h_epochs(void) { XV_OBL("qsbr.epochs.at_least_three", number_epochs >= 3 && NE == XV_NUMBER_EPOCHS); }
+
+/* add_retired_node(p) [+ (p, epoch)] */
+void h_retire(void) {
+  havoc_thread(1, 0);
+  unsigned k0 = nondet_uint(); XV_ASSUME(k0 < NP && home[k0] == -1);
+  unsigned le = in_local;
+  qsbr_add_retired_node1(&g_td, &pool[k0]);
+  XV_OBL("qsbr.retire.current_epoch", g_td.retire_lists[le] == &pool[k0] && pool[k0].next == head0[le]);
+  unsigned i = nondet_uint(); XV_ASSUME(i < NE); unsigned k = nondet_uint(); XV_ASSUME(k < NP);
+  XV_OBL("qsbr.conserve", (i == le || g_td.retire_lists[i] == head0[i]) && (k == k0 || pool[k].next == next0[k]) && n_delete == 0);
+  XV_OBL("qsbr.conserve", member(g_td.retire_lists[i], &pool[k]) == ((k == k0 ? (int)le : home[k]) == (int)i ? 1 : 0));
+  XV_OBL("qsbr.retire.current_epoch", entries[own].local_epoch == in_local && global_epoch == in_global && g_td.region_entries == in_entries);
+  if (head0[le]) XV_CANARY("retire.nonempty"); else XV_CANARY("retire.empty");
+}
+
+/* adopt_orphans: every orphan of the abandoned chain ends in retire_lists[its target_epoch], nothing else moves */
+void h_adopt(void) {
+  havoc_thread(1, 0);
+  unsigned chain = 0;
+  for (unsigned k = 0; k < NP; k++) if (home[k] == (int)NE) { chain++; XV_ASSUME(pool[k].target_epoch < number_epochs); }   /* orphan ctor: target_epoch < number_epochs */
+  XV_ASSUME(chain <= L);
+  qsbr_adopt_orphans(&g_td);
+  unsigned i = nondet_uint(); XV_ASSUME(i < NE); unsigned k = nondet_uint(); XV_ASSUME(k < NP);
+  int exp = home[k] == (int)NE ? (int)pool[k].target_epoch : home[k];
+  int m = member(g_td.retire_lists[i], &pool[k]);
+  if (home[k] == (int)NE) XV_OBL("qsbr.orphans.target_epoch", m == (exp == (int)i ? 1 : 0));
+  XV_OBL("qsbr.conserve", m == (exp == (int)i ? 1 : 0));
+  XV_OBL("qsbr.conserve", n_adopt_call == 1 && abandoned_head == 0 && n_delete == 0);
+  XV_OBL("qsbr.conserve", entries[own].local_epoch == in_local && global_epoch == in_global && g_td.region_entries == in_entries && g_td.control_block == &entries[own]);
+  if (chain == 0) XV_CANARY("adopt.none"); if (chain == L) XV_CANARY("adopt.full_chain");
+  if (chain == 2 && home[k] == (int)NE && head0[exp] != 0) XV_CANARY("adopt.onto_nonempty");
+}
+
+/* try_update_epoch(curr, new) from any registry contents */
+void h_try_update(void) {
+  havoc_thread(1, 0);
+  unsigned curr = nondet_uint(), nw = nondet_uint(); XV_ASSUME(curr < number_epochs);
+  unsigned old = (curr + number_epochs - 1) % number_epochs;
+  _Bool blocked = blocked_by(old);
+  unsigned j = nondet_uint(); XV_ASSUME(j < n_entries);
+  _Bool j_inv = entries[j].state == ST_ACTIVE && near(entries[j].local_epoch, in_global);
+  _Bool r = qsbr_try_update_epoch(&g_td, curr, nw);
+  XV_OBL("qsbr.advance.all_quiescent", r == !blocked);
+  XV_OBL("qsbr.advance.all_quiescent", global_epoch == ((!blocked && in_global == curr) ? nw : in_global));
+  XV_OBL("qsbr.advance.all_quiescent", n_adopt == ((!blocked && in_global == curr) ? 1u : 0u) && mon_g_stores == 0);
+  XV_OBL("qsbr.advance.all_quiescent", entries[j].local_epoch == in_e_epoch[j] && entries[j].state == in_e_state[j] && mon_own_stores == 0 && mon_other_stores == 0);
+  if (n_adopt) XV_OBL("qsbr.orphans.adopt_after_advance", mon_g_cas_ok && adopt_clock > mon_g_cas_clock);
+  /* the algorithm's invariant "global in {local, local+1} for every active entry" survives an advance curr -> curr+1 */
+  if (nw == (curr + 1) % number_epochs && j_inv) XV_OBL("qsbr.advance.keeps_invariant", near(entries[j].local_epoch, global_epoch));
+  if (mon_g_cas) XV_OBL("qsbr.sync.orders", mon_g_cas_order == mo_acq_rel && n_fence >= 1 && XV_IS_ACQUIRE(mon_fence_order) && mon_fence_clock > mon_last_entry_read_clock && mon_fence_clock < mon_g_cas_clock);
+  XV_OBL("qsbr.conserve", n_delete == 0 && g_td.region_entries == in_entries);
+  if (blocked) XV_CANARY("try_update.blocked");
+  if (!blocked && in_global == curr) XV_CANARY("try_update.advanced");
+  if (!blocked && in_global != curr) XV_CANARY("try_update.already");
+  /* C17: a record of an exited thread standing at the old epoch does not block */
+  if (!blocked && in_global == curr && entries[j].state != ST_ACTIVE && entries[j].local_epoch == old) XV_CANARY("try_update.exited_ignored");
+  if (n_entries == E && r) XV_CANARY("try_update.full_registry");
+}
+void h_try_update_int(void) {
+#ifdef XV_INT
+  havoc_thread(1, 0);
+  unsigned curr = nondet_uint(), nw = nondet_uint(); XV_ASSUME(curr < number_epochs);
+  unsigned old = (curr + number_epochs - 1) % number_epochs;
+  env_kind = 3;
+  _Bool r = qsbr_try_update_epoch(&g_td, curr, nw);
+  env_kind = 0;
+  XV_OBL("qsbr.advance.all_quiescent", mon_g_cas <= 1 && mon_g_stores == 0);
+  if (mon_g_cas) {
+    XV_OBL("qsbr.advance.all_quiescent", mon_cas_all_examined && mon_g_cas_exp == curr && mon_g_cas_des == nw && r);
+    XV_OBL("qsbr.sync.orders", mon_g_cas_order == mo_acq_rel && n_fence >= 1 && XV_IS_ACQUIRE(mon_fence_order) && mon_fence_clock > mon_last_entry_read_clock && mon_fence_clock < mon_g_cas_clock);
+  }
+  if (r) { unsigned j = nondet_uint(); XV_ASSUME(j < n_entries); XV_OBL("qsbr.advance.all_quiescent", examined_ok(j, old)); }
+  else XV_OBL("qsbr.advance.all_quiescent", mon_g_cas == 0 && n_adopt == 0);
+  XV_OBL("qsbr.orphans.adopt_after_advance", n_adopt == ((mon_g_cas && mon_g_cas_ok) ? 1u : 0u) && (!n_adopt || adopt_clock > mon_g_cas_clock));
+  XV_OBL("qsbr.advance.all_quiescent", mon_own_stores == 0 && mon_other_stores == 0 && n_delete == 0);
+  if (mon_g_cas && mon_g_cas_ok) XV_CANARY("try_update_int.advanced"); if (mon_g_cas && !mon_g_cas_ok) XV_CANARY("try_update_int.lost_race");
+  if (!r) XV_CANARY("try_update_int.blocked");
+#endif
+}
+
+/* quiescent_state with the real try_update_epoch; adopt_orphans and delete_objects are contract stubs */
+void h_quiescent(void) {
+  havoc_thread(1, 0);
+  XV_ASSUME(in_entries == 0);                                   /* call site: leave_region reached 0 */
+  XV_ASSUME(near(in_local, in_global));                         /* algorithm invariant for this (active) thread */
+  unsigned old = (in_local + number_epochs - 1) % number_epochs, nxt = (in_local + 1) % number_epochs;
+  _Bool blocked = blocked_by(old);
+  unsigned j = nondet_uint(); XV_ASSUME(j < E && j != own);     /* any other record */
+  unsigned i = nondet_uint(); XV_ASSUME(i < NE);
+  qsbr_quiescent_state(&g_td);
+  unsigned l1 = entries[own].local_epoch;
+  /* the property: list e is freed only when the thread moves into epoch e, one step at a time, and that epoch is the global one */
+  XV_OBL("qsbr.free.on_reentry", n_delete <= 1 && n_delete == (l1 != in_local ? 1u : 0u));
+  XV_OBL("qsbr.free.on_reentry", l1 == in_local || (l1 == nxt && l1 == global_epoch && del_arg == &g_td.retire_lists[l1]));
+  if (in_global == in_local) {
+    if (blocked) { XV_OBL("qsbr.advance.all_quiescent", l1 == in_local && global_epoch == in_global && n_adopt == 0 && n_delete == 0 && mon_own_stores == 0); XV_CANARY("quiescent.blocked"); }
+    else { XV_OBL("qsbr.advance.all_quiescent", global_epoch == nxt && l1 == nxt && n_adopt == 1 && n_delete == 1 && adopt_clock < delete_clock); XV_CANARY("quiescent.advanced"); }
+  } else {
+    XV_OBL("qsbr.free.on_reentry", global_epoch == in_global && l1 == in_global && n_adopt == 0 && n_delete == 1 && mon_g_cas == 0); XV_CANARY("quiescent.caught_up");
+  }
+  /* frame: only the entered epoch's list is emptied; the other lists are as adopt_orphans left them (or untouched) */
+  if (n_delete) XV_OBL("qsbr.conserve", g_td.retire_lists[l1] == 0);
+  if (!(n_delete && i == l1)) XV_OBL("qsbr.conserve", g_td.retire_lists[i] == (n_adopt ? adopt_new_head[i] : head0[i]));
+  XV_OBL("qsbr.conserve", entries[j].local_epoch == in_e_epoch[j] && entries[j].state == in_e_state[j] && g_td.region_entries == 0 && g_td.control_block == &entries[own] && entries[own].state == ST_ACTIVE);
+  XV_OBL("qsbr.advance.keeps_invariant", near(l1, global_epoch) && l1 < number_epochs && global_epoch < number_epochs);
+  if (mon_own_stores) XV_OBL("qsbr.sync.orders", XV_IS_RELEASE(mon_own_store_order) && mon_own_stores == 1 && mon_own_store_clock < delete_clock);
+  XV_OBL("qsbr.sync.orders", mon_g_loads >= 1);
+  if (n_delete && i == l1 && head0[i] != 0) XV_CANARY("quiescent.freed_nonempty");
+}
+void h_quiescent_int(void) {
+#ifdef XV_INT
+  havoc_thread(1, 0);
+  XV_ASSUME(in_entries == 0 && near(in_local, in_global));
+  unsigned nxt = (in_local + 1) % number_epochs;
+  mon_g_loads = 0;
+  env_kind = 2;
+  qsbr_quiescent_state(&g_td);
+  env_kind = 0;
+  unsigned l1 = entries[own].local_epoch;
+  XV_OBL("qsbr.free.on_reentry", n_delete <= 1 && n_delete == (l1 != in_local ? 1u : 0u));
+  XV_OBL("qsbr.free.on_reentry", l1 == in_local || (l1 == nxt && del_arg == &g_td.retire_lists[l1] && mon_own_stores == 1 && mon_own_store_val == nxt && mon_own_store_global == nxt));
+  XV_OBL("qsbr.advance.keeps_invariant", near(l1, global_epoch));
+  if (mon_g_cas) XV_OBL("qsbr.advance.all_quiescent", mon_cas_all_examined && mon_g_cas_exp == in_local && mon_g_cas_des == nxt);
+  XV_OBL("qsbr.orphans.adopt_after_advance", n_adopt == ((mon_g_cas && mon_g_cas_ok) ? 1u : 0u));
+  if (mon_own_stores) XV_OBL("qsbr.sync.orders", XV_IS_RELEASE(mon_own_store_order) && mon_own_store_clock < delete_clock);
+  if (l1 != in_local && !mon_g_cas) XV_CANARY("quiescent_int.caught_up"); if (mon_g_cas && !mon_g_cas_ok) XV_CANARY("quiescent_int.lost_race");
+  if (mon_g_cas_ok) XV_CANARY("quiescent_int.advanced"); if (l1 == in_local) XV_CANARY("quiescent_int.blocked");
+#endif
+}
+
+/* ensure_has_control_block: (re-)initialisation of a record, possibly one left by an exited thread (C17) */
+void h_ensure(void) {
+  havoc_thread(0, 0);
+#ifdef XV_INT
+  env_kind = 3;
+#endif
+  qsbr_ensure_has_control_block(&g_td);
+#ifdef XV_INT
+  env_kind = 0;
+#endif
+  if (in_has_cb) {
+    XV_OBL("qsbr.adopt.reinit", n_acquire_entry == 0 && g_td.control_block == &entries[own] && mon_own_stores == 0 && mon_g_cas == 0 && mon_g_loads == 0);
+    XV_CANARY("ensure.already");
+  } else {
+    XV_OBL("qsbr.adopt.reinit", n_acquire_entry == 1 && g_td.control_block == acquired_cb && acquired_cb->state == ST_ACTIVE);
+    /* the local epoch is a global epoch value validated by the successful CAS (global unchanged by it), and not rewritten afterwards */
+    XV_OBL("qsbr.adopt.reinit", mon_g_cas >= 1 && mon_g_cas_ok && mon_g_cas_exp == mon_g_cas_des && acquired_cb->local_epoch == mon_g_cas_exp
+                                 && mon_own_stores >= 1 && mon_own_store_clock < mon_g_cas_clock && acquired_cb->local_epoch < number_epochs);
+#ifndef XV_INT
+    XV_OBL("qsbr.adopt.reinit", acquired_cb->local_epoch == global_epoch && global_epoch == in_global);
+#endif
+    XV_OBL("qsbr.sync.orders", mon_g_cas_order == mo_acq_rel);
+    XV_OBL("qsbr.adopt.reinit", mon_g_stores == 0 && mon_other_stores == 0 && g_td.region_entries == in_entries);
+    if (in_reuse) XV_CANARY("ensure.reused"); else XV_CANARY("ensure.new");
+  }
+  check_lists_untouched();
+}
+
+/* ~thread_data: pending nodes are handed over as one orphan tagged (global-1) mod number_epochs; the record is released */
+void h_dtor(void) {
+  havoc_thread(0, 0);
+  XV_ASSUME(in_entries == 0);                                   /* thread exit: no guard alive */
+  _Bool any = 0; for (unsigned i = 0; i < NE; i++) if (head0[i]) any = 1;
+  unsigned i = nondet_uint(); XV_ASSUME(i < NE); unsigned k = nondet_uint(); XV_ASSUME(k < NP);
+  qsbr_td_dtor(&g_td);
+  if (!in_has_cb) {
+    XV_OBL("qsbr.dtor.hands_over_all", n_orphan_new == 0 && n_abandon == 0 && n_release == 0 && mon_g_loads == 0);
+    XV_CANARY("dtor.never_registered");
+  } else {
+    XV_OBL("qsbr.dtor.releases_record", n_release == 1 && released_cb == &entries[own] && g_td.control_block == 0 && entries[own].state == ST_FREE);
+    if (!any) { XV_OBL("qsbr.dtor.hands_over_all", n_orphan_new == 0 && n_abandon == 0); XV_CANARY("dtor.nothing_pending"); }
+    else {
+      XV_OBL("qsbr.dtor.hands_over_all", n_orphan_new == 1 && n_abandon == 1 && abandoned_obj == &orphan_obj && orphan_obj.o_lists[i] == head0[i] && orphan_obj.next == 0);
+      XV_OBL("qsbr.orphans.target_epoch", orphan_target == (in_global + number_epochs - 1) % number_epochs && orphan_target < number_epochs && mon_g_loads == 1);
+      XV_CANARY("dtor.orphan");
+    }
+  }
+  XV_OBL("qsbr.conserve", pool[k].next == next0[k] && n_delete == 0 && global_epoch == in_global && mon_g_stores == 0 && mon_g_cas == 0);
+}
